@@ -44,7 +44,7 @@ ASSUMPTIONS = [
 ]
 REAL_STUB = {"real": ["onnx_ir._cloner", "Model/Graph/Function/GraphView.clone", "passes.functionalize and the wrapped passes", "serde.to_proto"], "stub": [], "harness_extension_points": []}
 
-CLONE_KINDS = ["model", "model_deep", "graph", "graph_deep", "function", "view", "view_partial", "functionalize", "subgraph_outer_allowed", "subgraph_outer_forbidden"]
+CLONE_KINDS = ["model", "model_deep", "graph", "graph_deep", "function", "function_deep", "view", "view_deep", "view_partial", "view_partial_deep", "functionalize", "subgraph_outer_allowed", "subgraph_outer_forbidden"]
 PASSES = ["RemoveUnusedNodesPass", "IdentityEliminationPass", "NameFixPass", "TopologicalSortPass", "CommonSubexpressionEliminationPass", "DeduplicateInitializersPass", "LiftConstantsToInitializersPass", "InlinePass", "ClearMetadataAndDocStringPass", "OutputFixPass"]
 def _composition(run_seed: int):
     cr = Streams(run_seed).rng("functionalize-composition")
@@ -248,17 +248,17 @@ def run_case(case: dict) -> dict:
         elif kind in ("graph", "graph_deep"):
             original_obj = model.graph
             clone_obj = model.graph.clone(deep_copy=kind.endswith("deep"))
-        elif kind == "function":
+        elif kind in ("function", "function_deep"):
             if not model.functions:
                 inc("skipped_no_function")
                 return res
             original_obj = list(model.functions.values())[0]
-            clone_obj = original_obj.clone()
-        elif kind == "view":
+            clone_obj = original_obj.clone(deep_copy=True) if kind == "function_deep" else original_obj.clone()
+        elif kind in ("view", "view_deep"):
             g = model.graph
             original_obj = ir.GraphView(list(g.inputs), list(g.outputs), nodes=list(g), initializers=list(g.initializers.values()), name=g.name, opset_imports=dict(g.opset_imports), doc_string=g.doc_string)
-            clone_obj = original_obj.clone()
-        elif kind == "view_partial":
+            clone_obj = original_obj.clone(deep_copy=True) if kind == "view_deep" else original_obj.clone()
+        elif kind in ("view_partial", "view_partial_deep"):
             # a view over the first nodes only that nevertheless lists, as an output, a value produced by a node
             # left out of it (and not declared as an input): not self-contained, a clone must refuse it clearly
             g = model.graph
@@ -271,17 +271,17 @@ def run_case(case: dict) -> dict:
             outs_ = [o for o in inside[-1].outputs[:1]] + [o for o in outside[-1].outputs[:1]]
             view = ir.GraphView(list(g.inputs), outs_, nodes=inside, initializers=list(g.initializers.values()), name=g.name, opset_imports=dict(g.opset_imports))
             try:
-                view.clone()
+                view.clone(deep_copy=True) if kind.endswith("_deep") else view.clone()
             except Exception as e:  # noqa: BLE001 - the expected outcome
                 inc("partial_view_rejected")
                 trace.append(("clone", "rejected", type(e).__name__))
             else:
-                viol("outer-capture-not-rejected", "GraphView.clone() returned although one of the view's outputs is produced outside the view and is not one of its inputs", key="outer-capture-not-rejected|view_partial")
+                viol("outer-capture-not-rejected", "GraphView.clone() returned although one of the view's outputs is produced outside the view and is not one of its inputs", key="outer-capture-not-rejected|" + kind)
                 return res
             snap_after = snapshot.snapshot(w0, tensors=False)
             if snap_after != snap0:
                 d = snapshot.diff(snap0, snap_after)
-                viol("clone-changed-the-original", f"view_partial: the refused clone changed the original: {str(d[:2])[:400]}", key="clone-changed-the-original|view_partial")
+                viol("clone-changed-the-original", f"view_partial: the refused clone changed the original: {str(d[:2])[:400]}", key="clone-changed-the-original|" + kind)
             res["event_digest"] = digest(trace)
             res["distinct"] = [digest((case["model_seed"], kind))]
             return res
